@@ -15,7 +15,7 @@ run_demo() {
   case "$demo" in
     *.sh) bash "$demo" >/tmp/seed-demo-$id.log 2>&1 ;;
     */tests/*.rs) pkg=$(echo "$demo" | cut -d/ -f1); t=$(basename "$demo" .rs)
-         feats=""; grep -q "Trainer\|verif_examples" "$demo" && [ "$pkg" = vaporetto ] && feats="--features train,kytea"
+         feats=""; grep -q "Trainer" "$demo" && [ "$pkg" = vaporetto ] && feats="--features train,kytea"; grep -q "verif_examples" "$demo" && [ "$pkg" = vaporetto ] && feats="--features train,kytea,verif-hooks"
          grep -q "Kytea" "$demo" && [ "$pkg" = vaporetto ] && feats="--features train,kytea"
          cargo test --offline -p $pkg $feats --test $t >/tmp/seed-demo-$id.log 2>&1 ;;
     *) echo "unknown demo kind $demo"; return 2 ;;
